@@ -713,6 +713,42 @@ func effectiveReturns(c *chk.Ctx, f *ssa.Function, depth int) []*ssa.Return {
 	return out
 }
 
+// resultAt is one return statement and the index of the result of interest.
+type resultAt struct {
+	r   *ssa.Return
+	idx int
+}
+
+// effectiveResults lists the returns that decide result idx of f: its own, with
+// a result that is result j of a private helper's call replaced by the helper's
+// returns (looking at their result j). Unlike effectiveReturns the helper need
+// not have f's signature: `x, err := h(); if err != nil { return err }`.
+func effectiveResults(c *chk.Ctx, f *ssa.Function, idx, depth int) []resultAt {
+	var out []resultAt
+	for _, r := range ir.Returns(f) {
+		if idx >= len(r.Results) {
+			continue
+		}
+		v := ir.ReturnResult(r, idx)
+		var call *ssa.Call
+		j := 0
+		if e, ok := v.(*ssa.Extract); ok {
+			call, _ = e.Tuple.(*ssa.Call)
+			j = e.Index
+		} else if cv, ok := v.(*ssa.Call); ok {
+			call = cv
+		}
+		if call != nil && depth < 3 {
+			if g := call.Call.StaticCallee(); g != nil && c.P.InRepo[g] && !ir.Exported(g) && g != f && len(g.Blocks) > 0 {
+				out = append(out, effectiveResults(c, g, j, depth+1)...)
+				continue
+			}
+		}
+		out = append(out, resultAt{r, idx})
+	}
+	return out
+}
+
 // delimModel describes a delimiter-framing receiver: its read-primitive calls,
 // its accumulation buffer, and predicates for "the accumulated line" and "the
 // read primitive's own error", all decided by provenance so that they hold
@@ -762,9 +798,54 @@ func delimiterRecv(c *chk.Ctx) *delimModel {
 			call, ok := v.(*ssa.Call)
 			return ok && m.buf != nil && ir.IsCallTo(&call.Call, "(*bytes.Buffer).Bytes") && soleAlloc(c, call.Call.Args[0]) == m.buf
 		}
+		// isDelimOnly: []byte{d} where d is the delimiter every read primitive is given
+		isDelimOnly := func(v ssa.Value) bool {
+			sl, ok := v.(*ssa.Slice)
+			if !ok || sl.Low != nil || sl.High != nil {
+				return false
+			}
+			al, ok := sl.X.(*ssa.Alloc)
+			if !ok {
+				return false
+			}
+			arr, ok := al.Type().Underlying().(*types.Pointer).Elem().Underlying().(*types.Array)
+			if !ok || arr.Len() != 1 {
+				return false
+			}
+			nStore := 0
+			good := true
+			for _, ref := range *al.Referrers() {
+				switch x := ref.(type) {
+				case *ssa.IndexAddr:
+					for _, rr := range *x.Referrers() {
+						st, isSt := rr.(*ssa.Store)
+						if !isSt {
+							good = false
+							continue
+						}
+						nStore++
+						for _, rs := range m.reads {
+							if !ir.SameFieldLoad(st.Val, rs.Call.Args[1]) && st.Val != rs.Call.Args[1] {
+								good = false
+							}
+						}
+					}
+				case *ssa.Slice, *ssa.DebugRef:
+				default:
+					good = false
+				}
+			}
+			return good && nStore == 1
+		}
 		m.isAccum = func(v ssa.Value) bool {
 			n := 0
 			for _, src := range c.P.SourcesStop(v, isBytes) {
+				// a suffix trimmed off the line (the delimiter, when present) leaves a piece of the line
+				// (the delimiter alone: a record cannot contain it, so nothing else can be cut)
+				if call, ok := src.(*ssa.Call); ok && ir.IsCallTo(&call.Call, "bytes.TrimSuffix") && len(call.Call.Args) == 2 && isBytes(ir.NormCell(call.Call.Args[0])) && isDelimOnly(call.Call.Args[1]) {
+					n++
+					continue
+				}
 				if !isBytes(src) {
 					return false
 				}
